@@ -368,7 +368,7 @@ func callSpace() *explore.Space {
 			names[j-1], names[j] = names[j], names[j-1]
 		}
 	}
-	args := []string{"1", "'s'", "a", "@a", ".", "true()", "a[1]", "(a)", "-1", "$v", "''", "a/b", "1 div 0", "*", "//a"}
+	args := []string{"1", "'s'", "a", "@a", ".", "true()", "'('", "a[1]", "(a)", "-1", "$v", "''", "a/b", "1 div 0", "*", "//a", "'[a'", "'*'"}
 	return &explore.Space{
 		Name: "Calls", Desc: fmt.Sprintf("every function name x arity 0..4 x argument tuples over %d arguments, bare / in a predicate / as a step: Compile only", len(args)),
 		Size:  len(names),
@@ -379,7 +379,7 @@ func callSpace() *explore.Space {
 			for n := 0; n <= 4; n++ {
 				alpha := args
 				if n >= 3 {
-					alpha = args[:6]
+					alpha = args[:7]
 				}
 				total := 1
 				for k := 0; k < n; k++ {
